@@ -284,7 +284,34 @@ func (p *Prog) factHolds(in ssa.Instruction, match func(g Guard) bool, depth int
 			return true
 		}
 	}
-	return false
+	// the instruction sits in a private helper (or closure) and the fact holds, in this wider sense, at every one of its
+	// call sites (t, err := getTorrent(h); if err != nil { return }; o, l, err := extent(t, name))
+	f := in.Parent()
+	if f.Parent() == nil {
+		if obj, ok := f.Object().(*types.Func); !ok || obj.Exported() {
+			return false
+		}
+	}
+	calls, escapes := p.callSitesOf(f)
+	if len(escapes) > 0 || len(calls) == 0 {
+		return false
+	}
+	for _, cs := range calls {
+		ci, ok := cs.(ssa.Instruction)
+		if !ok || funcPkgPath(cs.Parent()) != funcPkgPath(f) {
+			return false
+		}
+		if _, isGo := cs.(*ssa.Go); isGo {
+			return false
+		}
+		if callContradicts(cs, in) {
+			continue
+		}
+		if !p.factHolds(ci, match, depth+1) {
+			return false
+		}
+	}
+	return true
 }
 
 func isBoolType(t types.Type) bool {
